@@ -81,6 +81,15 @@ Theorem C20_lock_discipline :
 Proof. exact lock_discipline_forall. Qed.
 Print Assumptions C20_lock_discipline.
 
+(* ... and no region that holds only pool.mu.RLock (several holders at once)
+   writes shared pool state, directly or through a call (lazy Flatten cache,
+   heaps, sorts included) *)
+Theorem C20_read_regions_do_not_write :
+  forall name w cs, In (name, w, cs) c20_read_regions ->
+    w = false /\ forall c, In c cs -> may_write (List.length c20_funcs) c20_funcs c = false \/ In (name, c) pinned_read_exceptions.
+Proof. exact read_regions_forall. Qed.
+Print Assumptions C20_read_regions_do_not_write.
+
 (* the eviction branch of TxPool.loop still has the body the hook replicates *)
 Theorem C20_evict_branch_as_modelled : c20_evict_branch_as_modelled = true.
 Proof. exact evict_branch_as_modelled. Qed.
